@@ -217,9 +217,9 @@ def video_codecs(rtx):
 class ReceiverRig(MediaRigBase):
     """One real receiver behind a transport that records what it sends (C18 report path, C05 transport cases)."""
 
-    def __init__(self, rng, kind="video", clockrate=90000, ssrc=4242, rtcp_ssrc=99):
+    def __init__(self, rng, kind="video", clockrate=90000, ssrc=4242, rtcp_ssrc=99, rtx_ssrc=None):
         super().__init__(rng)
-        from aiortc.rtcrtpparameters import RTCRtpDecodingParameters, RTCRtpReceiveParameters
+        from aiortc.rtcrtpparameters import RTCRtpDecodingParameters, RTCRtpReceiveParameters, RTCRtpRtxParameters
         from aiortc.rtcrtpreceiver import RemoteStreamTrack, RTCRtpReceiver
 
         self.ep = MediaEndpoint(self, "R", "controlled")
@@ -227,8 +227,11 @@ class ReceiverRig(MediaRigBase):
         self.receiver._track = RemoteStreamTrack(kind=kind)
         self.receiver._set_rtcp_ssrc(rtcp_ssrc)
         self.ssrc = ssrc
-        params = RTCRtpReceiveParameters(codecs=video_codecs(False),
-                                         encodings=[RTCRtpDecodingParameters(ssrc=ssrc, payloadType=96)])
+        self.rtx_ssrc = rtx_ssrc
+        enc = RTCRtpDecodingParameters(ssrc=ssrc, payloadType=96)
+        if rtx_ssrc is not None:
+            enc.rtx = RTCRtpRtxParameters(ssrc=rtx_ssrc)
+        params = RTCRtpReceiveParameters(codecs=video_codecs(rtx_ssrc is not None), encodings=[enc])
         self.run(self.receiver.receive(params))
         self._taken = 0
 
@@ -236,6 +239,14 @@ class ReceiverRig(MediaRigBase):
         from aiortc.rtp import RtpPacket
 
         p = RtpPacket(payload_type=96, sequence_number=seq, timestamp=ts, ssrc=ssrc, payload=payload, marker=marker)
+        self.run(self.ep.handle(p.serialize()))
+
+    def feed_rtx(self, rtx_seq, ts, original_seq, payload=b"\x10abc"):
+        """A retransmission on the RTX stream (RFC 4588): own SSRC, own sequence numbers, original sequence number in front."""
+        from aiortc.rtp import RtpPacket
+
+        p = RtpPacket(payload_type=97, sequence_number=rtx_seq, timestamp=ts, ssrc=self.rtx_ssrc,
+                      payload=original_seq.to_bytes(2, "big") + payload)
         self.run(self.ep.handle(p.serialize()))
 
     def feed_raw(self, data):
